@@ -12,6 +12,7 @@ def check(tree, rep, tier='quick', seed=0):
     rep.exhaustive = True
     rep.assumptions = ['NOT decided (quantifies over all histories of register/meet/drain): termination of the work list, the bound on evaluations per line, and that every registered wait is released exactly once']
     core = get_core(tree)
+    R.k0_solve_shape(core, rep)          # every requested form is known before the first line is attempted
     R.k9_store_then_meet(core, rep)
     R.k10_refusal(core, rep)
     R.k12_schedule_once(core, rep)
